@@ -65,6 +65,7 @@ class Partial:
     notes: list = field(default_factory=list)
     exhaustive: dict = field(default_factory=dict)  # sub-domain name -> size enumerated completely
     inconclusive: int = 0
+    _fallback: list = field(default_factory=list)
 
     def case(self, digest: str | None, nontrivial: bool, sample: Any = None, max_samples: int = 4, **labels):
         self.evaluations += 1
@@ -77,6 +78,9 @@ class Partial:
                 self.hist[f"{k}={v}"] += 1
         if sample is not None and nontrivial and len(self.samples) < max_samples:
             self.samples.append(sample)
+        elif nontrivial and not self.samples and not self._fallback:
+            # make sure at least one non-trivial case is always shown, whatever sampling stride the property module uses
+            self._fallback.append({"case_digest": digest, "labels": {k: v for k, v in labels.items() if v not in (False, None)}})
 
     def merge(self, other: "Partial"):
         self.evaluations += other.evaluations
@@ -84,6 +88,8 @@ class Partial:
         for s in other.samples:
             if len(self.samples) < 12:
                 self.samples.append(s)
+        if not self._fallback:
+            self._fallback.extend(other._fallback[:1])
         self.hist.update(other.hist)
         self.violations.extend(other.violations)
         self.known_hits.update(other.known_hits)
@@ -364,7 +370,7 @@ def main(argv=None):
                 "evaluations": part.evaluations,
                 "distinct_nontrivial": len(part.nontrivial),
                 "rule": getattr(mod, "RULE", ""),
-                "samples": part.samples[:12],
+                "samples": (part.samples or part._fallback or [{"note": "no non-trivial case was sampled in this run"}])[:12],
                 "histogram": dict(sorted(part.hist.items())),
                 "known_findings_reproduced": {k: v for k, v in sorted(known_seen.items())},
                 "exhaustive_subdomains": part.exhaustive,
